@@ -47,7 +47,7 @@ POSTCONDITION Post
 """
 
 
-DIMS_C01 = dict(rwsets="{{}}", utf8set="{FALSE}", stages='{"ok"}')
+DIMS_C01 = dict(rwsets="{{}}", utf8set="{FALSE}", stages='{"ok", "start"}')
 
 
 def cfg(rcpts, mts, maxlist, devs=(), gen=False, tail="", dims=None):
@@ -184,6 +184,9 @@ def run_queue(ctx, replay, pid, mine, dims, opts):
         for k, b in enumerate(behs):       # harness-only dimension: every fourth message waits for a restart
             if k % 4 == 3:
                 b["cfg"]["restartFirst"] = True
+            # harness-only dimension: the recipients differ only by the letter case of the local part
+            if k % 5 == 2 and len(set(b["cfg"]["list"])) >= 2:
+                b["cfg"]["caseVar"] = True
     if opts.get("post") and not replay:
         opts["post"](ctx, behs)
     ctx.log("%d behaviours to replay" % len(behs))
@@ -201,6 +204,7 @@ def run_queue(ctx, replay, pid, mine, dims, opts):
             evs = [e for e in events if e["t"] == b["id"]]
             if b["cfg"]["bounce"] and not b["cfg"]["nullSender"] and \
                     any(e["e"] == "TCommit" and e["res"] == "ok" for e in evs) and \
+                    all(e.get("stage", "ok") == "ok" for e in evs if e["e"] == "Dsn") and \
                     sum(1 for e in evs if e["e"] == "TAddRcpt") >= 2:
                 base = evs
                 break
